@@ -16,20 +16,20 @@ import (
 // SeqProfile describes one sequential check: how histories are generated, what is observed,
 // which trace spec judges them.
 type SeqProfile struct {
-	Prop     string
-	Gen      GenParams
-	Obs      Obs
-	NRandom  int // random histories
-	Module   string
-	Cfg      string
-	Design   []DesignRun      // design-level TLC runs (exhaustive, bounded)
-	GenSpec  *GenSpec         // TLC-generated histories (spec -> code)
-	Extra    func(*SeqRun)    // additional property-specific drivers writing into the same shards
-	Rule     string           // evidence: what is a case / what makes it non-trivial
-	Assume   []string         // evidence: assumptions
-	KF       []string         // known findings enabled for this check
-	Hist     func(id int, seed int64) *History // custom history generator (overrides Gen)
-	RunHist  func(r *SeqRun, h *History, tw *TraceWriter, root string) // custom executor of one history (crash images ...)
+	Prop    string
+	Gen     GenParams
+	Obs     Obs
+	NRandom int // random histories
+	Module  string
+	Cfg     string
+	Design  []DesignRun                                               // design-level TLC runs (exhaustive, bounded)
+	GenSpec *GenSpec                                                  // TLC-generated histories (spec -> code)
+	Extra   func(*SeqRun)                                             // additional property-specific drivers writing into the same shards
+	Rule    string                                                    // evidence: what is a case / what makes it non-trivial
+	Assume  []string                                                  // evidence: assumptions
+	KF      []string                                                  // known findings enabled for this check
+	Hist    func(id int, seed int64) *History                         // custom history generator (overrides Gen)
+	RunHist func(r *SeqRun, h *History, tw *TraceWriter, root string) // custom executor of one history (crash images ...)
 }
 
 type DesignRun struct {
@@ -79,38 +79,38 @@ type dcaseRef struct {
 }
 
 type SeqRun struct {
-	P        *SeqProfile
-	Tier     string
-	Seed     int64
-	Scratch  string
-	mu       sync.Mutex
-	hists    map[int]*History
-	hhists   map[int][]byte
-	fcases   map[int]frameCase
-	dcases   map[int]bool
+	P          *SeqProfile
+	Tier       string
+	Seed       int64
+	Scratch    string
+	mu         sync.Mutex
+	hists      map[int]*History
+	hhists     map[int][]byte
+	fcases     map[int]frameCase
+	dcases     map[int]bool
 	stepShards []string
 	shardSpec  map[string][2]string // per-shard trace spec (default: the profile's)
 	chists     map[int]string
 	ncases     map[int]*ncaseRef
 	Notes      []string
-	shards   []string
-	Events   int
-	Counts   map[string]int
-	Sigs     map[string]struct{}
-	Samples  []any
-	Viol     []Violation
-	KFHits   map[string]int
-	Infra    []string
-	States   int
-	Trans    int
-	DesignOK bool
-	Design   []map[string]any
-	TraceSt  int
-	NHist    int
-	Exhaust  bool
-	NGen      int
-	GenStates int
-	Drift     int
+	shards     []string
+	Events     int
+	Counts     map[string]int
+	Sigs       map[string]struct{}
+	Samples    []any
+	Viol       []Violation
+	KFHits     map[string]int
+	Infra      []string
+	States     int
+	Trans      int
+	DesignOK   bool
+	Design     []map[string]any
+	TraceSt    int
+	NHist      int
+	Exhaust    bool
+	NGen       int
+	GenStates  int
+	Drift      int
 }
 
 func (r *SeqRun) infra(format string, a ...any) {
